@@ -5,7 +5,8 @@ import vlib
 
 NEGS = {"NEG_C17_WakeOffset.cfg": ["C17_WakeOnRelease"], "NEG_C17_KeepFirstWaker.cfg": ["C17_WakeOnRelease", "C17_Steps"],
         "NEG_C17_AvailLe.cfg": ["C17_Steps"], "NEG_C17_WakeBeforeDecrement.cfg": ["C17_WakeOnRelease"]}
-NEGS_LW = {"NEG_C17_lw_WakeKeeps.cfg": ["C17_LWSteps"], "NEG_C17_lw_RegisterFlagInverted.cfg": ["C17_LWSteps"]}
+NEGS_LW = {"NEG_C17_lw_WakeKeeps.cfg": ["C17_LWSteps"], "NEG_C17_lw_RegisterFlagInverted.cfg": ["C17_LWSteps"],
+           "NEG_C17_lw_DropOldBeforeStore.cfg": ["C17_LWSteps"]}
 
 
 def signature(rec):
